@@ -24,9 +24,11 @@ Open Scope N_scope.
 Record variant := {
   v_success_gate : bool;   (* handleHandshake touches the registry only when the handshake response is Success *)
   v_anon_delete : bool;    (* DeleteAnonymousClient also deletes the stored credentials (ClientConfig) *)
-  v_first_keeps : bool }.  (* handleFirstConnection no longer calls RecordSuccess (fixes/C18-anon-registration-keeps-failures.diff) *)
-Definition current_variant := {| v_success_gate := true; v_anon_delete := true; v_first_keeps := true |}.
-Definition pinned_variant := {| v_success_gate := false; v_anon_delete := false; v_first_keeps := false |}.
+  v_first_keeps : bool;    (* handleFirstConnection no longer calls RecordSuccess (fixes/C18-anon-registration-keeps-failures.diff) *)
+  v_ban_monotone : bool }. (* banIP never weakens a ban in force, in particular never replaces a permanent ban by a temporary one
+                              (fixes/C18-ban-never-weakened.diff; the tree as found overwrote the record unconditionally) *)
+Definition current_variant := {| v_success_gate := true; v_anon_delete := true; v_first_keeps := true; v_ban_monotone := true |}.
+Definition pinned_variant := {| v_success_gate := false; v_anon_delete := false; v_first_keeps := false; v_ban_monotone := false |}.
 
 Definition upd {A} (f : N -> A) (k : N) (v : A) : N -> A := fun x => if x =? k then v else f x.
 
@@ -52,7 +54,8 @@ Record client := { stored : cred; expired : bool; meta : N }.
 Record srv := {
   clients : N -> option client;     (* CloudControl.GetClientConfig *)
   next_id : N; next_secret : N; next_nonce : N;
-  banned : N -> bool;               (* BruteForceProtector.bannedIPs *)
+  banned : N -> bool;               (* BruteForceProtector.bannedIPs: a ban record in force *)
+  permb : N -> bool;                (* ... whose ExpiresAt is zero: permanent (meaningful while banned) *)
   black : N -> bool;                (* IPManager.blacklist, by entry key: [k_ip a] = the entry "a", [k_cidr a] = a CIDR entry covering a;
                                        persisted in storage (ip_manager_storage.go) *)
   white : N -> bool;                (* IPManager.whitelist, same keys; persisted likewise *)
@@ -62,50 +65,55 @@ Record srv := {
   index : N -> option N }.          (* ClientRegistry.clientIDMap : client id -> connection *)
 
 (* blacklist entry keys for address a: the exact-IP entry and a CIDR entry (/32) covering it *)
-Definition k_ip (a : N) : N := 2 * a.
-Definition k_cidr (a : N) : N := 2 * a + 1.
+Definition k_ip (a : N) : N := 3 * a.
+Definition k_cidr (a : N) : N := 3 * a + 1.
+Definition k_wide (a : N) : N := 3 * a + 2.   (* a wider range (/31, /127) covering a and no other address in use *)
 (* IPManager.IsAllowed = false *)
-Definition listed (l : N -> bool) (a : N) : bool := l (k_ip a) || l (k_cidr a).
+(* findActiveInList after the repair "any active entry": SOME in-force entry, exact or any covering range *)
+Definition listed (l : N -> bool) (a : N) : bool := l (k_ip a) || l (k_cidr a) || l (k_wide a).
 (* whitelist first, then blacklist (an in-force exact or covering entry) *)
 Definition blocked (s : srv) (a : N) : bool := negb (listed (white s) a) && listed (black s) a.
 
 Definition init : srv :=
   {| clients := fun _ => None; next_id := 1; next_secret := 1; next_nonce := 1;
-     banned := fun _ => false; black := fun _ => false; white := fun _ => false; fails := fun _ => 0; rl_deny := false;
+     banned := fun _ => false; permb := fun _ => false; black := fun _ => false; white := fun _ => false; fails := fun _ => 0; rl_deny := false;
      conns := fun _ => None; index := fun _ => None |}.
 
 Definition set_clients (s : srv) v := {| clients := v; next_id := next_id s; next_secret := next_secret s;
-  next_nonce := next_nonce s; banned := banned s; black := black s; white := white s; fails := fails s; rl_deny := rl_deny s;
+  next_nonce := next_nonce s; banned := banned s; permb := permb s; black := black s; white := white s; fails := fails s; rl_deny := rl_deny s;
   conns := conns s; index := index s |}.
 Definition set_banned (s : srv) v := {| clients := clients s; next_id := next_id s; next_secret := next_secret s;
-  next_nonce := next_nonce s; banned := v; black := black s; white := white s; fails := fails s; rl_deny := rl_deny s;
+  next_nonce := next_nonce s; banned := v; permb := permb s; black := black s; white := white s; fails := fails s; rl_deny := rl_deny s;
+  conns := conns s; index := index s |}.
+Definition set_permb (s : srv) v := {| clients := clients s; next_id := next_id s; next_secret := next_secret s;
+  next_nonce := next_nonce s; banned := banned s; permb := v; black := black s; white := white s; fails := fails s; rl_deny := rl_deny s;
   conns := conns s; index := index s |}.
 Definition set_black (s : srv) v := {| clients := clients s; next_id := next_id s; next_secret := next_secret s;
-  next_nonce := next_nonce s; banned := banned s; black := v; white := white s; fails := fails s; rl_deny := rl_deny s;
+  next_nonce := next_nonce s; banned := banned s; permb := permb s; black := v; white := white s; fails := fails s; rl_deny := rl_deny s;
   conns := conns s; index := index s |}.
 Definition set_white (s : srv) v := {| clients := clients s; next_id := next_id s; next_secret := next_secret s;
-  next_nonce := next_nonce s; banned := banned s; black := black s; white := v; fails := fails s; rl_deny := rl_deny s;
+  next_nonce := next_nonce s; banned := banned s; permb := permb s; black := black s; white := v; fails := fails s; rl_deny := rl_deny s;
   conns := conns s; index := index s |}.
 Definition set_fails (s : srv) v := {| clients := clients s; next_id := next_id s; next_secret := next_secret s;
-  next_nonce := next_nonce s; banned := banned s; black := black s; white := white s; fails := v; rl_deny := rl_deny s;
+  next_nonce := next_nonce s; banned := banned s; permb := permb s; black := black s; white := white s; fails := v; rl_deny := rl_deny s;
   conns := conns s; index := index s |}.
 Definition set_rl (s : srv) v := {| clients := clients s; next_id := next_id s; next_secret := next_secret s;
-  next_nonce := next_nonce s; banned := banned s; black := black s; white := white s; fails := fails s; rl_deny := v;
+  next_nonce := next_nonce s; banned := banned s; permb := permb s; black := black s; white := white s; fails := fails s; rl_deny := v;
   conns := conns s; index := index s |}.
 Definition set_conns (s : srv) v := {| clients := clients s; next_id := next_id s; next_secret := next_secret s;
-  next_nonce := next_nonce s; banned := banned s; black := black s; white := white s; fails := fails s; rl_deny := rl_deny s;
+  next_nonce := next_nonce s; banned := banned s; permb := permb s; black := black s; white := white s; fails := fails s; rl_deny := rl_deny s;
   conns := v; index := index s |}.
 Definition set_index (s : srv) v := {| clients := clients s; next_id := next_id s; next_secret := next_secret s;
-  next_nonce := next_nonce s; banned := banned s; black := black s; white := white s; fails := fails s; rl_deny := rl_deny s;
+  next_nonce := next_nonce s; banned := banned s; permb := permb s; black := black s; white := white s; fails := fails s; rl_deny := rl_deny s;
   conns := conns s; index := v |}.
 Definition bump_nonce (s : srv) := {| clients := clients s; next_id := next_id s; next_secret := next_secret s;
-  next_nonce := next_nonce s + 1; banned := banned s; black := black s; white := white s; fails := fails s; rl_deny := rl_deny s;
+  next_nonce := next_nonce s + 1; banned := banned s; permb := permb s; black := black s; white := white s; fails := fails s; rl_deny := rl_deny s;
   conns := conns s; index := index s |}.
 (* GenerateAnonymousCredentials: a new id with a new secret, not expired (ExpiresAt = now + 30 days) *)
 Definition register (s : srv) := {|
   clients := upd (clients s) (next_id s) (Some {| stored := CKey (next_secret s); expired := false; meta := 0 |});
   next_id := next_id s + 1; next_secret := next_secret s + 1;
-  next_nonce := next_nonce s; banned := banned s; black := black s; white := white s; fails := fails s; rl_deny := rl_deny s;
+  next_nonce := next_nonce s; banned := banned s; permb := permb s; black := black s; white := white s; fails := fails s; rl_deny := rl_deny s;
   conns := conns s; index := index s |}.
 (* ResetSecretKey *)
 Definition rekey (s : srv) (x : N) := match clients s x with
@@ -113,7 +121,7 @@ Definition rekey (s : srv) (x : N) := match clients s x with
   | Some cl => {|
       clients := upd (clients s) x (Some {| stored := CKey (next_secret s); expired := expired cl; meta := meta cl |});
       next_id := next_id s; next_secret := next_secret s + 1;
-      next_nonce := next_nonce s; banned := banned s; black := black s; white := white s; fails := fails s; rl_deny := rl_deny s;
+      next_nonce := next_nonce s; banned := banned s; permb := permb s; black := black s; white := white s; fails := fails s; rl_deny := rl_deny s;
       conns := conns s; index := index s |}
   end.
 
@@ -138,10 +146,18 @@ Variable hmac : N -> N -> N.         (* HMAC-SHA256(secret, challenge); no assum
 Variables max_failures perm_ban : N. (* BruteForceConfig.MaxFailures / PermanentBanAt (regenerated, Gen/C03.v) *)
 
 (* BruteForceProtector.RecordFailure *)
-Definition record_failure (s : srv) (a : N) : srv :=
+(* BruteForceProtector.banIP(a, 0 | duration): a permanent request always ends in a permanent ban; a temporary request never
+   weakens a permanent ban in force (mono) — the tree as found overwrote the record *)
+Definition ban_req (mono perm : bool) (s : srv) (a : N) : srv :=
+  if perm then set_permb (set_banned s (upd (banned s) a true)) (upd (permb s) a true)
+  else if mono && banned s a && permb s a then s
+  else set_permb (set_banned s (upd (banned s) a true)) (upd (permb s) a false).
+
+Definition record_failure (mono : bool) (s : srv) (a : N) : srv :=
   let f := fails s a + 1 in
   let s1 := set_fails s (upd (fails s) a f) in
-  if (perm_ban <=? f) || (max_failures <=? f) then set_banned s1 (upd (banned s1) a true) else s1.
+  if perm_ban <=? f then ban_req mono true s1 a
+  else if max_failures <=? f then ban_req mono false s1 a else s1.
 (* BruteForceProtector.RecordSuccess *)
 Definition clear_fails (s : srv) (a : N) : srv := set_fails s (upd (fails s) a 0).
 
@@ -155,13 +171,13 @@ Definition first_state (keep : bool) (s : srv) (a : N) : srv :=
 Definition gate_fail (chk : bool) (s : srv) (a : N) (m : hs) : bool :=
   chk && (blocked s a || banned s a || ((h_cid m =? 0) && rl_deny s)).
 
-Definition auth (chk keep : bool) (s : srv) (c : cc) (a : N) (m : hs) : srv * cc * aresp :=
+Definition auth (chk : bool) (v : variant) (s : srv) (c : cc) (a : N) (m : hs) : srv * cc * aresp :=
   if gate_fail chk s a m then (s, c, AFail)
   else if (h_cid m =? 0) && h_new m then                                 (* 4. handleFirstConnection *)
     let id := next_id s in
-    (first_state keep s a, {| authed := true; ccid := id; pending := pending c |}, ASuccessNew id)
+    (first_state (v_first_keeps v) s a, {| authed := true; ccid := id; pending := pending c |}, ASuccessNew id)
   else match clients s (h_cid m) with
-  | None => (record_failure s a, c, AFail)                               (* client not found *)
+  | None => (record_failure (v_ban_monotone v) s a, c, AFail)                               (* client not found *)
   | Some cl =>
     if expired cl then (s, c, AFail) else                                (* credentials expired *)
     match h_resp m with
@@ -174,13 +190,13 @@ Definition auth (chk keep : bool) (s : srv) (c : cc) (a : N) (m : hs) : srv * cc
       end
     | Some r =>                                                          (* 5.2 handleChallengePhase2 *)
       match pending c with
-      | None => (record_failure s a, c, AFail)                           (* no pending challenge *)
+      | None => (record_failure (v_ban_monotone v) s a, c, AFail)                           (* no pending challenge *)
       | Some ch =>
         (* ClearPendingChallenge happens before VerifyResponse; VerifyResponse is false whenever the stored
            credential does not decrypt, whatever the response is *)
         if match secret_of (stored cl) with Some sec => r =? hmac sec ch | None => false end
         then (clear_fails s a, {| authed := true; ccid := h_cid m; pending := None |}, ASuccess)
-        else (record_failure s a, {| authed := authed c; ccid := ccid c; pending := None |}, AFail)
+        else (record_failure (v_ban_monotone v) s a, {| authed := authed c; ccid := ccid c; pending := None |}, AFail)
       end
     end
   end.
@@ -219,7 +235,7 @@ Definition handle (chk : bool) (v : variant) (s : srv) (k : N) (m : option hs) :
     | None => (s, {| o_err := true; o_wire := WNone; o_auth := None |})   (* connection not found *)
     | Some cn =>
       let c0 := match c_cc cn with Some c => c | None => new_cc end in    (* existing or NewControlConnection+Register *)
-      let '(s1, c1, ar) := auth chk (v_first_keeps v) s c0 (c_addr cn) h in
+      let '(s1, c1, ar) := auth chk v s c0 (c_addr cn) h in
       let s2 := set_conns s1 (upd (conns s1) k (Some {| c_open := c_open cn; c_addr := c_addr cn; c_cc := Some c1 |})) in
       let s3 := set_index s2 (reconcile (index s2) k c1) in               (* ReconcileIndex *)
       match ar with
@@ -258,10 +274,15 @@ Inductive ev :=
                                             and an expired record does not ban: the set of banned addresses is unchanged *)
 | EUnbanLands (a : N)
 | EWhite (a : N) (cidr : bool) | EUnwhite (a : N) (cidr : bool)    (* AddToWhitelist / RemoveFromWhitelist of the exact or CIDR entry *)
-| EBody (k : N) (m : hs).                (* the rest of a handshake on k that passed the gate checks (steps 1-3) EARLIER: handshakes of
+| EBody (k : N) (m : hs)                (* the rest of a handshake on k that passed the gate checks (steps 1-3) EARLIER: handshakes of
                                             several connections overlap in the real server, the gates are evaluated first and other
                                             handshakes (failures, bans) may complete before this one does.  EMsg = gates + body at once;
-                                            an EBody anywhere in a history over-approximates every such overlap *)                   (* the asynchronous unbanIfExpired(a) spawned by IsBanned runs: it deletes only a record that
+                                            an EBody anywhere in a history over-approximates every such overlap *)
+| EBanPerm (a : N)                       (* operator BanIP(a, 0): permanent *)
+| ETempLapse (a : N)                     (* the period of a temporary ban on a is over (a permanent ban has no period) *)
+| EBlackW (a : N) | EUnblackW (a : N)    (* blacklist add / remove of the wider range covering a *)
+| EBlackLapse (a : N) (key : N).         (* a short-lived blacklist entry is put on the exact (0) / range (1) / wider range (2) key of a,
+                                            replacing what was there, and runs out: that key no longer holds an in-force entry *)                   (* the asynchronous unbanIfExpired(a) spawned by IsBanned runs: it deletes only a record that
                                             is (still) expired under the lock, i.e. never a ban in force *)
 
 (* what survives a restart of the server process: everything the code keeps in storage — client configs (and the id /
@@ -270,7 +291,7 @@ Inductive ev :=
    (BruteForceProtector has no storage), rate-limiter buckets. *)
 Definition restart (s : srv) : srv :=
   {| clients := clients s; next_id := next_id s; next_secret := next_secret s; next_nonce := next_nonce s;
-     banned := fun _ => false; black := black s; white := white s; fails := fun _ => 0; rl_deny := false;
+     banned := fun _ => false; permb := fun _ => false; black := black s; white := white s; fails := fun _ => 0; rl_deny := false;
      conns := fun _ => None; index := fun _ => None |}.
 
 Definition no_out := {| o_err := false; o_wire := WNone; o_auth := None |}.
@@ -283,8 +304,13 @@ Definition step (v : variant) (s : srv) (e : ev) : srv * out :=
   match e with
   | EMsg k m => handle true v s k m
   | EBody k m => handle false v s k (Some m)
-  | EBan a => (set_banned s (upd (banned s) a true), no_out)
-  | EUnban a => (set_banned s (upd (banned s) a false), no_out)
+  | EBan a => (ban_req (v_ban_monotone v) false s a, no_out)
+  | EBanPerm a => (ban_req (v_ban_monotone v) true s a, no_out)
+  | EUnban a => (set_permb (set_banned s (upd (banned s) a false)) (upd (permb s) a false), no_out)
+  | ETempLapse a => (if permb s a then s else set_banned s (upd (banned s) a false), no_out)
+  | EBlackW a => (set_black s (upd (black s) (k_wide a) true), no_out)
+  | EUnblackW a => (set_black s (upd (black s) (k_wide a) false), no_out)
+  | EBlackLapse a key => (set_black s (upd (black s) (match key with 0 => k_ip a | 1 => k_cidr a | _ => k_wide a end) false), no_out)
   | EBlack a => (set_black s (upd (black s) (k_ip a) true), no_out)
   | EUnblack a => (set_black s (upd (black s) (k_ip a) false), no_out)
   | EBlackC a => (set_black s (upd (black s) (k_cidr a) true), no_out)
@@ -307,7 +333,8 @@ Definition step (v : variant) (s : srv) (e : ev) : srv * out :=
   | ESetRecord x e m => (match clients s x with
                          | Some cl => set_clients s (upd (clients s) x (Some {| stored := stored cl; expired := e; meta := m |}))
                          | None => s end, no_out)
-  | EBanLapse _ => (s, no_out)
+  | EBanLapse a => (if v_ban_monotone v then s
+                    else set_permb (set_banned s (upd (banned s) a false)) (upd (permb s) a false), no_out)
   | EUnbanLands _ => (s, no_out)
   | EWhite a c => (set_white s (upd (white s) (if c then k_cidr a else k_ip a) true), no_out)
   | EUnwhite a c => (set_white s (upd (white s) (if c then k_cidr a else k_ip a) false), no_out)
